@@ -91,6 +91,7 @@ pub fn c16_lexicase() {
     }
     cover!(r1.pos > 0, "randomness is consumed");
 }
+// not registered: does not finish within 1500 s (two lexicase runs); Lexicase::select's determinism is the Verus contract of C08
 #[cfg(kani)]
 #[kani::proof]
 #[kani::unwind(8)]
@@ -184,9 +185,10 @@ pub fn c16_umad() {
     check!(x.len == y.len && x.genes[0] == y.genes[0] && x.genes[1] == y.genes[1] && r1.pos == r2.pos, "UMAD is a function of the genome and the generator state");
     cover!(x.len == 2, "insertion reachable");
 }
+// not registered: does not finish within 1500 s (two UMAD runs over std's FlatMap); c16_umad_empty covers the branch that samples
 #[cfg(kani)]
 #[kani::proof]
-#[kani::unwind(4)]
+#[kani::unwind(8)]
 fn p_c16_umad() {
     c16_umad()
 }
